@@ -5,6 +5,8 @@ prefix sums, slices), used by `Props/Translated.lean`.
 import FastTicc.Generated.Kernels
 import FastTicc.Model.Stack
 import FastTicc.Model.Index
+import FastTicc.Model.Viterbi
+import FastTicc.Proofs.Viterbi
 import Mathlib.Data.Rat.Floor
 import Mathlib.Tactic.Ring
 import Mathlib.Tactic.Linarith
@@ -161,5 +163,355 @@ theorem pref_pos (l : List Nat) (hpos : ∀ x ∈ l, 0 < x) (i : Nat) (hi : i < 
     have := hpos x (by simp)
     simp [pref]
     omega
+
+/-! ### the labelling kernel -/
+
+section
+variable {α : Type} [Zero α] [Add α] [Sub α] [LT α] [DecidableLT α]
+
+def innerBody (i : Int) (total : Py.Arr1 α) (am : Int) (bi : α) (cluster : Int)
+    (s : Py.Arr2 Int × Py.Arr2 α) : Py.Arr2 Int × Py.Arr2 α :=
+  if decide (total.get1 am < total.get1 cluster - bi) then
+    (s.1.set i cluster am, s.2.set i cluster (total.get1 am))
+  else (s.1.set i cluster cluster, s.2.set i cluster (total.get1 cluster - bi))
+
+def outerBody (cost : Py.Arr2 α) (lsc : Py.Arr1 α) (K : Int) (i : Int)
+    (s : Py.Arr2 Int × Py.Arr2 α) : Py.Arr2 Int × Py.Arr2 α :=
+  let total := Py.Arr1.addScalar (Py.Arr1.add (s.2.row (i + 1)) (cost.row (i + 1))) (lsc.get1 i)
+  Py.forEach (Py.range 0 K 1) s (innerBody i total total.argmin (lsc.get1 i))
+
+def pathBody (pm : Py.Arr2 Int) (i : Int) (path : List Int) : List Int :=
+  Py.setItem path (i + 1) (pm.get2 i (Py.getItem path i))
+
+theorem gen_viterbi_structured (cost : Py.Arr2 α) (sov : Py.ScalarOrVec α) :
+    Gen.assign_point_cluster_labels cost sov =
+      (let T := cost.shape0
+       let K := cost.shape1
+       let lsc := Py.broadcastAdd (Py.Arr1.const T (0 : α)) sov
+       let r := Py.forEach (Py.range (T - 2) (-1) (-1)) (Py.Arr2.const T K (0 : Int), Py.Arr2.const T K (0 : α))
+                  (outerBody cost lsc K)
+       let path0 := Py.setItem (Py.repeatList [(-1 : Int)] T) 0
+                      (Py.Arr1.argmin (Py.Arr1.add (r.2.row 0) (cost.row 0)))
+       let cst := r.2.get2 0 (Py.getItem path0 0) + cost.get2 0 (Py.getItem path0 0)
+       (Py.forEach (Py.range 0 (T - 1) 1) path0 (pathBody r.1), cst)) := rfl
+
+
+theorem idx_nat (n i : Nat) : Py.idx n (i : Int) = i := by
+  unfold Py.idx
+  have : ¬ ((i : Int) < 0) := by omega
+  simp [this]
+
+theorem pyArgminUpTo_eq (f : Nat → α) (n : Nat) : Py.Arr1.argminUpTo f n = Viterbi.argminUpTo f n := by
+  induction n with
+  | zero => rfl
+  | succ k ih => simp only [Py.Arr1.argminUpTo, Viterbi.argminUpTo, ih]
+
+/-- the inner loop over the clusters of one point -/
+theorem inner_loop (T K i a : Nat) (total : Py.Arr1 α) (bi : α) (pm : Py.Arr2 Int) (fut : Py.Arr2 α)
+    (hpm : pm.rows = T ∧ pm.cols = K) (hfut : fut.rows = T ∧ fut.cols = K) (htot : total.n = K) (m : Nat) :
+    ((List.range m).foldl (fun s (c : Nat) => innerBody (i : Int) total (a : Int) bi (c : Int) s) (pm, fut)).1.rows = T ∧
+    ((List.range m).foldl (fun s (c : Nat) => innerBody (i : Int) total (a : Int) bi (c : Int) s) (pm, fut)).1.cols = K ∧
+    ((List.range m).foldl (fun s (c : Nat) => innerBody (i : Int) total (a : Int) bi (c : Int) s) (pm, fut)).2.rows = T ∧
+    ((List.range m).foldl (fun s (c : Nat) => innerBody (i : Int) total (a : Int) bi (c : Int) s) (pm, fut)).2.cols = K ∧
+    (∀ r c, ((List.range m).foldl (fun s (c : Nat) => innerBody (i : Int) total (a : Int) bi (c : Int) s) (pm, fut)).1.get r c
+        = if r = i ∧ c < m then (if total.get a < total.get c - bi then (a : Int) else (c : Int)) else pm.get r c) ∧
+    (∀ r c, ((List.range m).foldl (fun s (c : Nat) => innerBody (i : Int) total (a : Int) bi (c : Int) s) (pm, fut)).2.get r c
+        = if r = i ∧ c < m then (if total.get a < total.get c - bi then total.get a else total.get c - bi)
+          else fut.get r c) := by
+  induction m with
+  | zero => simp [hpm.1, hpm.2, hfut.1, hfut.2]
+  | succ k ih =>
+    rw [List.range_succ, List.foldl_append]
+    generalize (List.range k).foldl (fun s (c : Nat) => innerBody (i : Int) total (a : Int) bi (c : Int) s) (pm, fut) = s at ih
+    obtain ⟨h1, h2, h3, h4, h5, h6⟩ := ih
+    simp only [List.foldl_cons, List.foldl_nil, innerBody, Py.Arr1.get1, htot, idx_nat]
+    by_cases hlt : total.get a < total.get k - bi
+    · simp only [hlt, decide_true, if_true, Py.Arr2.set, h1, h2, h3, h4, idx_nat, true_and]
+      refine ⟨?_, ?_⟩
+      · intro r c
+        by_cases hr : r = i <;> by_cases hc : c = k
+        · subst hr; subst hc; simp [hlt]
+        · subst hr; rw [if_neg (by tauto), h5]
+          have : (c < k + 1) = (c < k) := by apply propext; omega
+          simp [this]
+        · rw [if_neg (by tauto), h5]; simp [hr]
+        · rw [if_neg (by tauto), h5]; simp [hr]
+      · intro r c
+        by_cases hr : r = i <;> by_cases hc : c = k
+        · subst hr; subst hc; simp [hlt]
+        · subst hr; rw [if_neg (by tauto), h6]
+          have : (c < k + 1) = (c < k) := by apply propext; omega
+          simp [this]
+        · rw [if_neg (by tauto), h6]; simp [hr]
+        · rw [if_neg (by tauto), h6]; simp [hr]
+    · simp only [hlt, decide_false, Bool.false_eq_true, if_false, Py.Arr2.set, h1, h2, h3, h4, idx_nat, true_and]
+      refine ⟨?_, ?_⟩
+      · intro r c
+        by_cases hr : r = i <;> by_cases hc : c = k
+        · subst hr; subst hc; simp [hlt]
+        · subst hr; rw [if_neg (by tauto), h5]
+          have : (c < k + 1) = (c < k) := by apply propext; omega
+          simp [this]
+        · rw [if_neg (by tauto), h5]; simp [hr]
+        · rw [if_neg (by tauto), h5]; simp [hr]
+      · intro r c
+        by_cases hr : r = i <;> by_cases hc : c = k
+        · subst hr; subst hc; simp [hlt]
+        · subst hr; rw [if_neg (by tauto), h6]
+          have : (c < k + 1) = (c < k) := by apply propext; omega
+          simp [this]
+        · rw [if_neg (by tauto), h6]; simp [hr]
+        · rw [if_neg (by tauto), h6]; simp [hr]
+
+
+theorem idx_nat_succ (n i : Nat) : Py.idx n ((i : Int) + 1) = i + 1 := by
+  have : (i : Int) + 1 = ((i + 1 : Nat) : Int) := by push_cast; rfl
+  rw [this, idx_nat]
+
+theorem forEach_range_down {σ} (n : Nat) (init : σ) (body : Int → σ → σ) :
+    Py.forEach (Py.range ((n : Int) - 1) (-1) (-1)) init body
+      = (List.range n).foldl (fun s (k : Nat) => body (((n - 1 - k : Nat) : Nat) : Int) s) init := by
+  unfold Py.forEach Py.range
+  have hl : Py.rangeLen ((n : Int) - 1) (-1) (-1) = n := by
+    unfold Py.rangeLen
+    simp
+  rw [hl, List.foldl_map]
+  apply foldl_congr_mem
+  intro acc k hk
+  have hk' : k < n := List.mem_range.mp hk
+  congr 1
+  omega
+
+/-- the points of the model: cost row `i` and the switching cost of the pair `(i, i+1)` as the kernel reads it -/
+def ptsOf (cost : Py.Arr2 α) (lsc : Py.Arr1 α) : List ((Nat → α) × α) :=
+  (List.range cost.rows).map (fun i => (cost.get i, lsc.get i))
+
+theorem ptsOf_drop (cost : Py.Arr2 α) (lsc : Py.Arr1 α) (r : Nat) (h : r + 1 < cost.rows) :
+    (ptsOf cost lsc).drop r
+      = (cost.get r, lsc.get r) :: (cost.get (r + 1), lsc.get (r + 1)) :: (ptsOf cost lsc).drop (r + 2) := by
+  unfold ptsOf
+  rw [← List.map_drop, ← List.map_drop, List.drop_eq_getElem_cons (by simp; omega)]
+  rw [List.drop_eq_getElem_cons (by simp; omega)]
+  simp
+
+theorem ptsOf_drop_last (cost : Py.Arr2 α) (lsc : Py.Arr1 α) (r : Nat) (h : r + 1 = cost.rows) :
+    (ptsOf cost lsc).drop r = [(cost.get r, lsc.get r)] := by
+  unfold ptsOf
+  rw [← List.map_drop, List.drop_eq_getElem_cons (by simp; omega)]
+  simp
+  omega
+
+/-- row `r` of the model's future-cost table -/
+def futM (cost : Py.Arr2 α) (lsc : Py.Arr1 α) (r : Nat) : Nat → α :=
+  (Viterbi.back cost.cols ((ptsOf cost lsc).drop r)).1
+
+theorem futM_last (cost : Py.Arr2 α) (lsc : Py.Arr1 α) (r : Nat) (h : r + 1 = cost.rows) (c : Nat) :
+    futM cost lsc r c = 0 := by
+  unfold futM
+  rw [ptsOf_drop_last cost lsc r h]
+  rfl
+
+theorem futM_step (cost : Py.Arr2 α) (lsc : Py.Arr1 α) (r : Nat) (h : r + 1 < cost.rows) :
+    futM cost lsc r = Viterbi.stepFuture cost.cols (futM cost lsc (r + 1)) (cost.get (r + 1)) (lsc.get r) := by
+  unfold futM
+  rw [ptsOf_drop cost lsc r h]
+  simp only [Viterbi.back]
+  rw [ptsOf_drop_eq_tail cost lsc r h]
+where
+  ptsOf_drop_eq_tail (cost : Py.Arr2 α) (lsc : Py.Arr1 α) (r : Nat) (h : r + 1 < cost.rows) :
+      (cost.get (r + 1), lsc.get (r + 1)) :: (ptsOf cost lsc).drop (r + 2) = (ptsOf cost lsc).drop (r + 1) := by
+    unfold ptsOf
+    rw [← List.map_drop, ← List.map_drop, List.drop_eq_getElem_cons (i := r + 1) (by simp; omega)]
+    simp
+
+
+/-- state after the first `m` iterations of the backward loop (rows `T-2, …, T-1-m`) -/
+def outerState (cost : Py.Arr2 α) (lsc : Py.Arr1 α) (m : Nat) : Py.Arr2 Int × Py.Arr2 α :=
+  (List.range m).foldl
+    (fun s (k : Nat) => outerBody cost lsc (cost.cols : Int) (((cost.rows - 1 - 1 - k : Nat) : Nat) : Int) s)
+    (Py.Arr2.const cost.rows cost.cols (0 : Int), Py.Arr2.const cost.rows cost.cols (0 : α))
+
+theorem outer_loop (cost : Py.Arr2 α) (lsc : Py.Arr1 α) (hl : lsc.n = cost.rows) (hK : 0 < cost.cols) (m : Nat)
+    (hm : m + 1 ≤ cost.rows) :
+    (outerState cost lsc m).1.rows = cost.rows ∧ (outerState cost lsc m).1.cols = cost.cols ∧
+    (outerState cost lsc m).2.rows = cost.rows ∧ (outerState cost lsc m).2.cols = cost.cols ∧
+    (∀ r c, cost.rows - 1 - m ≤ r → r + 1 ≤ cost.rows → c < cost.cols →
+        (outerState cost lsc m).2.get r c = futM cost lsc r c) ∧
+    (∀ r c, cost.rows - 1 - m ≤ r → r + 1 < cost.rows → c < cost.cols →
+        (outerState cost lsc m).1.get r c
+          = ((Viterbi.stepPath cost.cols (futM cost lsc (r + 1)) (cost.get (r + 1)) (lsc.get r) c : Nat) : Int)) := by
+  induction m with
+  | zero =>
+    refine ⟨by simp [outerState, Py.Arr2.const], by simp [outerState, Py.Arr2.const],
+      by simp [outerState, Py.Arr2.const], by simp [outerState, Py.Arr2.const], ?_, ?_⟩
+    · intro r c h1 h2 _
+      have : r + 1 = cost.rows := by omega
+      rw [futM_last cost lsc r this]
+      simp [outerState, Py.Arr2.const]
+    · intro r c h1 h2 _
+      omega
+  | succ k ih =>
+    obtain ⟨h1, h2, h3, h4, h5, h6⟩ := ih (by omega)
+    have hstep : outerState cost lsc (k + 1)
+        = outerBody cost lsc (cost.cols : Int) (((cost.rows - 1 - 1 - k : Nat) : Nat) : Int) (outerState cost lsc k) := by
+      simp only [outerState, List.range_succ, List.foldl_append, List.foldl_cons, List.foldl_nil]
+    generalize hi : cost.rows - 1 - 1 - k = i at hstep
+    have hi1 : i + 1 = cost.rows - 1 - k := by omega
+    have hi2 : i + 1 < cost.rows := by omega
+    generalize outerState cost lsc k = s at *
+    rw [hstep]
+    simp only [outerBody]
+    rw [forEach_range]
+    -- the vector of totals and its argmin
+    set total : Py.Arr1 α :=
+      Py.Arr1.addScalar (Py.Arr1.add (s.2.row ((i : Int) + 1)) (cost.row ((i : Int) + 1))) (lsc.get1 (i : Int)) with htotal
+    have htn : total.n = cost.cols := by simp [htotal, Py.Arr1.addScalar, Py.Arr1.add, Py.Arr2.row, h4]
+    have htget : ∀ c, c < cost.cols →
+        total.get c = Viterbi.totalVals (futM cost lsc (i + 1)) (cost.get (i + 1)) (lsc.get i) c := by
+      intro c hc
+      simp only [htotal, Py.Arr1.addScalar, Py.Arr1.add, Py.Arr2.row, Py.Arr1.get1, idx_nat_succ, idx_nat, h3, hl,
+        Viterbi.totalVals]
+      rw [h5 (i + 1) c (by omega) (by omega) hc]
+    have ham : total.argmin = ((Viterbi.argmin (Viterbi.totalVals (futM cost lsc (i + 1)) (cost.get (i + 1)) (lsc.get i)) cost.cols : Nat) : Int) := by
+      simp only [Py.Arr1.argmin, htn, pyArgminUpTo_eq, Viterbi.argmin]
+      congr 1
+      apply Viterbi.argminUpTo_congr
+      intro c hc
+      exact htget c (by omega)
+    rw [ham]
+    set a := Viterbi.argmin (Viterbi.totalVals (futM cost lsc (i + 1)) (cost.get (i + 1)) (lsc.get i)) cost.cols with ha
+    have halt : a < cost.cols := Viterbi.argmin_lt _ hK
+    obtain ⟨g1, g2, g3, g4, g5, g6⟩ :=
+      inner_loop cost.rows cost.cols i a total (lsc.get1 (i : Int)) s.1 s.2 ⟨h1, h2⟩ ⟨h3, h4⟩ htn cost.cols
+    have hb : lsc.get1 (i : Int) = lsc.get i := by simp [Py.Arr1.get1, idx_nat]
+    refine ⟨g1, g2, g3, g4, ?_, ?_⟩
+    · intro r c hr1 hr2 hc
+      rw [g6]
+      by_cases hri : r = i
+      · subst hri
+        rw [if_pos ⟨rfl, hc⟩, futM_step cost lsc r hi2]
+        simp only [Viterbi.stepFuture, ← ha, hb]
+        rw [htget c hc, htget a halt]
+      · rw [if_neg (by tauto)]
+        exact h5 r c (by omega) hr2 hc
+    · intro r c hr1 hr2 hc
+      rw [g5]
+      by_cases hri : r = i
+      · subst hri
+        rw [if_pos ⟨rfl, hc⟩]
+        simp only [Viterbi.stepPath, ← ha, hb]
+        rw [htget c hc, htget a halt]
+        split <;> rfl
+      · rw [if_neg (by tauto)]
+        exact h6 r c (by omega) hr2 hc
+
+
+/-- labels along a path matrix given as a function of the row index -/
+def labs (g : Nat → Nat → Nat) (c : Nat) : Nat → Nat
+  | 0 => c
+  | j + 1 => g j (labs g c j)
+
+omit [Zero α] [Add α] [Sub α] [LT α] [DecidableLT α] in
+theorem labs_shift (g : Nat → Nat → Nat) (c : Nat) : ∀ j, labs (g ∘ Nat.succ) (g 0 c) j = labs g c (j + 1)
+  | 0 => rfl
+  | j + 1 => by
+    show (g ∘ Nat.succ) j (labs (g ∘ Nat.succ) (g 0 c) j) = g (j + 1) (labs g c (j + 1))
+    rw [labs_shift g c j]; rfl
+
+omit [Zero α] [Add α] [Sub α] [LT α] [DecidableLT α] in
+theorem follow_map_range (n : Nat) : ∀ (g : Nat → Nat → Nat) (c : Nat),
+    c :: Viterbi.follow ((List.range n).map g) c = (List.range (n + 1)).map (labs g c) := by
+  induction n with
+  | zero => intro g c; rfl
+  | succ k ih =>
+    intro g c
+    rw [List.range_succ_eq_map, List.map_cons, List.map_map, Viterbi.follow]
+    rw [ih (g ∘ Nat.succ) (g 0 c)]
+    rw [List.range_succ_eq_map (n := k + 1), List.map_cons, List.map_map]
+    congr 1
+    apply List.map_congr_left
+    intro j _
+    exact labs_shift g c j
+
+/-- the rows of the model's path matrix from row `r` on -/
+theorem back_snd_eq (cost : Py.Arr2 α) (lsc : Py.Arr1 α) (n : Nat) : ∀ r, r + 1 + n = cost.rows →
+    (Viterbi.back cost.cols ((ptsOf cost lsc).drop r)).2
+      = (List.range n).map (fun j => Viterbi.stepPath cost.cols (futM cost lsc (r + j + 1)) (cost.get (r + j + 1))
+          (lsc.get (r + j))) := by
+  induction n with
+  | zero =>
+    intro r h
+    rw [ptsOf_drop_last cost lsc r (by omega)]
+    rfl
+  | succ k ih =>
+    intro r h
+    have hr : r + 1 < cost.rows := by omega
+    rw [ptsOf_drop cost lsc r hr]
+    simp only [Viterbi.back]
+    rw [futM_step.ptsOf_drop_eq_tail cost lsc r hr, ih (r + 1) (by omega)]
+    rw [List.range_succ_eq_map, List.map_cons, List.map_map]
+    congr 1
+    apply List.map_congr_left
+    intro j _
+    simp only [Function.comp]
+    have e1 : r + 1 + j + 1 = r + (j + 1) + 1 := by omega
+    have e2 : r + 1 + j = r + (j + 1) := by omega
+    rw [e1, e2]
+
+/-- path matrix rows as a function of the row index -/
+def pathRow (cost : Py.Arr2 α) (lsc : Py.Arr1 α) (j : Nat) : Nat → Nat :=
+  Viterbi.stepPath cost.cols (futM cost lsc (j + 1)) (cost.get (j + 1)) (lsc.get j)
+
+theorem labs_lt (cost : Py.Arr2 α) (lsc : Py.Arr1 α) (hK : 0 < cost.cols) (c : Nat) (hc : c < cost.cols) :
+    ∀ j, labs (pathRow cost lsc) c j < cost.cols
+  | 0 => hc
+  | j + 1 => Viterbi.stepPath_lt _ hK _ _ _ _ (labs_lt cost lsc hK c hc j)
+
+theorem path_loop (cost : Py.Arr2 α) (lsc : Py.Arr1 α) (pm : Py.Arr2 Int) (hK : 0 < cost.cols)
+    (hpm : pm.rows = cost.rows ∧ pm.cols = cost.cols)
+    (hget : ∀ r c, r + 1 < cost.rows → c < cost.cols → pm.get r c = ((pathRow cost lsc r c : Nat) : Int))
+    (c0 : Nat) (hc0 : c0 < cost.cols) (m : Nat) (hm : m + 1 ≤ cost.rows) :
+    (List.range m).foldl (fun p (k : Nat) => pathBody pm (k : Int) p)
+        ((List.range cost.rows).map (fun j => if j ≤ 0 then ((labs (pathRow cost lsc) c0 j : Nat) : Int) else -1))
+      = (List.range cost.rows).map (fun j => if j ≤ m then ((labs (pathRow cost lsc) c0 j : Nat) : Int) else -1) := by
+  induction m with
+  | zero => rfl
+  | succ k ih =>
+    rw [List.range_succ, List.foldl_append, ih (by omega)]
+    simp only [List.foldl_cons, List.foldl_nil, pathBody]
+    have hgi : Py.getItem ((List.range cost.rows).map
+        (fun j => if j ≤ k then ((labs (pathRow cost lsc) c0 j : Nat) : Int) else -1)) (k : Int)
+        = ((labs (pathRow cost lsc) c0 k : Nat) : Int) := by
+      rw [getItem_natCast_map _ _ _ (by omega)]
+      simp
+    rw [hgi]
+    have hlt := labs_lt cost lsc hK c0 hc0 k
+    have hval : pm.get2 (k : Int) ((labs (pathRow cost lsc) c0 k : Nat) : Int)
+        = ((labs (pathRow cost lsc) c0 (k + 1) : Nat) : Int) := by
+      simp only [Py.Arr2.get2, idx_nat, hpm.1, hpm.2]
+      rw [hget k _ (by omega) hlt]
+      rfl
+    rw [hval]
+    have e : (k : Int) + 1 = ((k + 1 : Nat) : Int) := by push_cast; rfl
+    rw [e]
+    unfold Py.setItem
+    rw [idx_nat]
+    apply List.ext_getElem
+    · simp
+    · intro j h1 h2
+      simp only [List.length_set, List.length_map, List.length_range] at h1
+      simp only [List.getElem_set, List.getElem_map, List.getElem_range]
+      by_cases hj : k + 1 = j
+      · subst hj; simp
+      · rw [if_neg hj]
+        have : (j ≤ k + 1) = (j ≤ k) := by apply propext; omega
+        simp only [this]
+
+
+theorem lsc_n (T : Nat) (sov : Py.ScalarOrVec α) :
+    (Py.broadcastAdd (Py.Arr1.const (T : Int) (0 : α)) sov).n = T := by
+  cases sov <;> simp [Py.broadcastAdd, Py.Arr1.addScalar, Py.Arr1.add, Py.Arr1.const]
+
+end
 
 end FastTicc.PyLemmas
